@@ -22,6 +22,7 @@ OUT = os.path.join(os.path.dirname(os.path.abspath(__file__)), "..", "harness")
 INTS = ("int", "int16", "int32", "int64")
 FLOATS = ("float32", "float64")
 NULLS = ("nullint", "nullbool", "nullfloat", "nullstring")
+CUSTOM = {"customS": "verifCustomS", "customI": "verifCustomI", "customL": "verifCustomL"}
 INT_RANGE = {"int16": (-32768, 32767), "int32": (-2147483648, 2147483647)}
 
 
@@ -48,10 +49,14 @@ class Ty:
             return "map[string]" + self.elem.go()
         if k == "struct":
             return self.name
+        if k in CUSTOM:
+            return CUSTOM[k]
         return {"nullint": "null.Int", "nullbool": "null.Bool", "nullfloat": "null.Float", "nullstring": "null.String"}[k]
 
     def id(self):
         k = self.kind
+        if self.gotext:
+            return self.gotext.replace(".", "_")
         if k == "ptr":
             return "P" + self.elem.id()
         if k == "slice":
@@ -155,6 +160,24 @@ class Sd:
             parts.append("Fields: []%sSchemaRecordField{%s}" % (av, ", ".join("{Name: \"%s\", Type: %s}" % (n, s.lit(av)) for n, s in self.fields)))
         return "%sSchema{Type: \"%s\", Object: &%sSchemaObject{%s}}" % (av, k, av, ", ".join(parts))
 
+    def lit_ns(self, av):
+        """literal of the schema exactly as schemaForType generates it (record name + namespace)"""
+        k = self.kind
+        if k == "union":
+            return "%sSchema{Type: \"union\", Union: []%sSchema{%s}}" % (av, av, ", ".join(b.lit_ns(av) for b in self.branches))
+        if k in ("null", "boolean", "int", "long", "float", "double", "bytes", "string"):
+            return "%sSchema{Type: \"%s\"}" % (av, k)
+        if k == "fixed":
+            return "%sSchema{Type: \"fixed\", Object: &%sSchemaObject{Name: \"%s\", Size: %d}}" % (av, av, self.name, self.size)
+        if k == "array":
+            return "%sSchema{Type: \"array\", Object: &%sSchemaObject{Items: %s}}" % (av, av, self.items.lit_ns(av))
+        if k == "map":
+            return "%sSchema{Type: \"map\", Object: &%sSchemaObject{Values: %s}}" % (av, av, self.items.lit_ns(av))
+        if k == "record":
+            fs = ", ".join("{Name: \"%s\", Type: %s}" % (n, s.lit_ns(av)) for n, s in self.fields)
+            return "%sSchema{Type: \"record\", Object: &%sSchemaObject{Name: \"%s\", Namespace: \"github.com.philpearl.avro\", Fields: []%sSchemaRecordField{%s}}}" % (av, av, self.name, av, fs)
+        raise ValueError(k)
+
     def swapped(self):
         """null moved to the other position in every nullable pair."""
         k = self.kind
@@ -168,6 +191,17 @@ class Sd:
         if k == "record":
             return Sd(k, fields=[(n, s.swapped()) for n, s in self.fields], name=self.name)
         return self
+
+    def has_kind(self, kind):
+        if self.kind == kind:
+            return True
+        if self.kind == "union":
+            return any(b.has_kind(kind) for b in self.branches)
+        if self.kind in ("array", "map"):
+            return self.items.has_kind(kind)
+        if self.kind == "record":
+            return any(s.has_kind(kind) for _, s in self.fields)
+        return False
 
     def has_union(self):
         k = self.kind
@@ -203,6 +237,10 @@ def natural(t, omit=False):
     elif k == "ptr":
         e = natural(t.elem)
         s = e if e.kind in ("union", "array", "map") else U(e)
+    elif k in ("customS", "customI"):
+        s = Sd("fixed", size=9, name=k)
+    elif k == "customL":
+        s = Sd("bytes")
     elif k == "nullint":
         s = U(Sd("long"))
     elif k == "nullbool":
@@ -257,7 +295,7 @@ class Gen:
         if k == "bool":
             body.append("*p = verifNondetBool(tag)")
         elif k in ("int", "int64"):
-            body.append("*p = %s(%s(tag))" % (k, "verifNondetI64" if wide else "verifNarrow"))
+            body.append("*p = %s(%s(tag))" % (t.go(), "verifNondetI64" if wide else "verifNarrow"))
         elif k == "int32":
             body.append("*p = %s" % ("verifNondetI32(tag)" if wide else "int32(verifNarrow(tag))"))
         elif k == "int16":
@@ -287,6 +325,12 @@ class Gen:
                     continue
                 nz = f.omitempty() and f.ty.kind == "map"
                 body.append("%s(&p.%s, tag+\".%s\")" % (self.fill(f.ty, nested, nz, wide), f.name, f.name))
+        elif k == "customS":
+            body.append("p.A = verifNondetI32(tag + \".A\")\n\tp.B = verifNondetI32(tag + \".B\")")
+        elif k == "customI":
+            body.append("*p = verifCustomI(verifNondetI64(tag))")
+        elif k == "customL":
+            body.append("*p = verifCustomL(verifBytes(tag, verifChoice(tag+\".len\", verifMaxStr()+1)))")
         elif k == "nullint":
             body.append("p.Valid = verifNondetBool(tag + \".valid\")\n\tp.Int64 = %s(tag)" % ("verifNondetI64" if wide else "verifNarrow"))
         elif k == "nullbool":
@@ -357,8 +401,14 @@ class Gen:
                 b.append("f := float32(*p)\n\treturn refFloat(*(*uint32)(unsafe.Pointer(&f)))")
         elif sd.kind == "string":
             b.append("return refStr([]byte(*p))")
-        elif sd.kind == "bytes":
+        elif sd.kind == "bytes" and k != "customL":
             b.append("return refStr(*p)")
+        elif sd.kind == "fixed" and k == "customS":
+            b.append("return refStr(verifMarkBytesS(verifMark, p))")
+        elif sd.kind == "fixed" and k == "customI":
+            b.append("return refStr(verifMarkBytesI(verifMark, p))")
+        elif sd.kind == "bytes" and k == "customL":
+            b.append("return refStr(verifMarkBytesL(verifMark, p))")
         elif sd.kind == "fixed":
             b.append("return refStr(p[:])")
         elif sd.kind == "array":
@@ -443,6 +493,10 @@ class Gen:
             b.append("return refBytesEq(*in, *out)")
         elif wk == "fixed" and tk == "fixed":
             b.append("return *in == *out")
+        elif wk in ("customS", "customI") and tk == wk:
+            b.append("return *in == *out")
+        elif wk == "customL" and tk == "customL":
+            b.append("return refBytesEq([]byte(*in), []byte(*out))")
         elif wk == "slice" and tk == "slice":
             er = self.rt(wt.elem, tt.elem)
             b.append("if len(*in) != len(*out) {\n\t\treturn false\n\t}\n\tacc := true\n\tfor i := range *in {\n\t\tacc = verifAnd(acc, %s(&(*in)[i], &(*out)[i]))\n\t}\n\treturn acc" % er)
@@ -462,7 +516,7 @@ class Gen:
         elif wk in NULLS and tk in NULLS and wk == tk:
             fld = {"nullint": "Int64", "nullbool": "Bool", "nullfloat": "Float64", "nullstring": "String"}[wk]
             if wk == "nullfloat":
-                e = "*(*uint64)(unsafe.Pointer(&in.Float64)) == *(*uint64)(unsafe.Pointer(&out.Float64))"
+                e = "verifOr(*(*uint64)(unsafe.Pointer(&in.Float64)) == *(*uint64)(unsafe.Pointer(&out.Float64)), verifAnd(in.Float64 != in.Float64, out.Float64 != out.Float64))"
             elif wk == "nullstring":
                 e = "verifStrEq(in.String, out.String)"
             else:
@@ -571,6 +625,61 @@ class Gen:
 }
 """ % dict(group=group, n=t.name, av=self.av, fill=fill, datum=datum, rt=rt,
            obs='verifObserveInt("enclen", len(enc))' if has_map(t) else 'verifObserveBytes("enc", enc)'))
+
+    def harness_c20(self, t):
+        """C20: the custom codec governs its type in this position and nothing
+        else: schema generation emits the registered schema there, the bytes
+        carry the marker encoding there and the default encoding for the
+        unregistered twin, values round-trip; both registration orders."""
+        fill, rt = self.fill(t), self.rt(t, t)
+        datum = self.datum_under(natural(t), t)
+        self.guards(t)
+        self.w("""func verifHarness_C20_%(n)s() {
+	verifMark = verifRegisterOrder()
+	s, err := SchemaForType(%(n)s{})
+	verifAssert(err == nil, "C20:schema-generated")
+	if err != nil {
+		return
+	}
+	want := %(lit)s
+	verifAssert(verifSchemaEq(&s, &want), "C20:registered-schema-emitted-at-the-custom-type-and-nowhere-else")
+	c, err := s.Codec(%(n)s{})
+	verifAssert(err == nil, "C20:codec-built")
+	if err != nil {
+		return
+	}
+	var in %(n)s
+	%(fill)s(&in, "v")
+	verifSetGuards_%(n)s(&in)
+	w := NewWriteBuf(nil)
+	c.Write(w, unsafe.Pointer(&in))
+	enc := w.Bytes()
+	d, n, ok := refDecode(&s, enc, 0)
+	verifAssert(ok && n == len(enc), "C20:output-is-valid-under-the-generated-schema")
+	if ok {
+		wantd := %(datum)s(&in)
+		verifAssert(refEq(&d, &wantd), "C20:marker-encoding-exactly-at-the-custom-typed-values-latest-registration")
+	}
+	var out %(n)s
+	verifSetGuards_%(n)s(&out)
+	r := NewReadBuf(enc)
+	err = c.Read(r, unsafe.Pointer(&out))
+	verifAssert(err == nil, "C20:read-ok")
+	if err == nil {
+		verifAssert(r.Len() == 0, "C20:read-consumes-all")
+		verifAssert(%(rt)s(&in, &out), "C20:values-round-trip-through-the-custom-codec")
+		verifAssert(verifGuards_%(n)s(&out), "C05:guards-intact")
+	}
+	var empty struct{}
+	ce, err2 := s.Codec(empty)
+	if err2 == nil {
+		r2 := NewReadBuf(enc)
+		err2 = ce.Read(r2, unsafe.Pointer(&empty))
+		verifAssert(err2 == nil && r2.Len() == 0, "C20:skip-consumes-all")
+	}
+	verifReach("end")
+}
+""" % dict(n=t.name, fill=fill, datum=datum, rt=rt, lit=natural(t).lit_ns(self.av)))
 
     def harness_read(self, wt, tt, group, swap=False, wide=False):
         """C03 + C04: a conformant writer (reference encoder with symbolic
@@ -688,9 +797,9 @@ func verifMaxStr() int { return 2 }
 
 func verifC06MaxLen() int {
 	if verifThorough() {
-		return 8
+		return 6
 	}
-	return 5
+	return 4
 }
 
 func verifStrEq(a, b string) bool {
@@ -755,6 +864,23 @@ def catalogue_avro(g):
     add("deep", "verifD_PtrBytes", [Field("A", P(B("bytes"))), Z()])
     add("deep", "verifD_SliceBytes", [Field("A", S(B("bytes"))), Z()])
     return types, cat
+
+
+def catalogue_c20(g):
+    Z = lambda: Field("Z", B("int64"), 'json:"z"')
+    twinS = Ty("struct", name="verifTwinS", fields=[Field("A", B("int32"), guard=False), Field("B", B("int32"), guard=False)])
+    twinI = Ty("int64", gotext="verifTwinI")
+    out = []
+    for k, twin in (("customS", twinS), ("customI", twinI), ("customL", B("bytes"))):
+        K = k[-1]
+        out.append(g.struct("verifC20_%s_field" % K, [Field("A", B(k)), Field("T", twin), Z()]))
+        out.append(g.struct("verifC20_%s_ptr" % K, [Field("A", P(B(k))), Field("T", P(twin)), Z()]))
+        out.append(g.struct("verifC20_%s_slice" % K, [Field("A", S(B(k))), Z()]))
+        out.append(g.struct("verifC20_%s_map" % K, [Field("A", M(B(k))), Z()]))
+        out.append(g.struct("verifC20_%s_omit" % K, [Field("A", B(k), 'json:"A,omitempty"'), Z()]))
+        inner = g.struct("verifC20_%s_inner" % K, [Field("X", B(k)), Field("Y", B("int64"))])
+        out.append(g.struct("verifC20_%s_nested" % K, [Field("A", inner), Field("B", P(inner)), Z()]))
+    return out
 
 
 def reader_pairs_avro(g, cat):
@@ -927,7 +1053,7 @@ def emit_c06(g, types):
 	buf := verifBytes("buf", n)
 	// termination and work proportional to the input, allocation proportional to the input
 	verifUnwind(2*n + 8)
-	verifAllocMax(2*n + 16)
+	verifAllocMax(n + 4)
 	var out %(n)s
 	r := %(av)sNewReadBuf(buf)
 	err = c.Read(r, unsafe.Pointer(&out))
@@ -938,6 +1064,68 @@ def emit_c06(g, types):
 	verifReach("end")
 }
 """ % dict(n=t.name, av=av))
+
+
+C06_MATRIX_KINDS = ("bool", "int64", "int16", "float32", "string", "bytes", "arr4", "sliceI64", "mapI64", "structX", "ptrI64")
+
+
+def emit_c06_matrix(g):
+    """arbitrary bytes into every (schema, Go kind) pair that builds, and through every schema's skip path"""
+    av = g.av
+    g.w("""func verifHarness_C06_skip_schema() {
+	all := verifC05Schemas()
+	fs := all[verifChoice("schema", len(all))]
+	if verifChoice("wrap", 2) == 1 {
+		fs = %(av)sSchema{Type: "array", Object: &%(av)sSchemaObject{Items: fs}}
+	}
+	s := %(av)sSchema{Type: "record", Object: &%(av)sSchemaObject{Name: "r", Fields: []%(av)sSchemaRecordField{{Name: "F", Type: fs}, {Name: "Z", Type: %(av)sSchema{Type: "long"}}}}}
+	var empty struct{}
+	c, err := s.Codec(empty)
+	if err != nil {
+		verifReach("end")
+		return
+	}
+	n := verifChoice("len", verifC06MaxLen()+1)
+	buf := verifBytes("buf", n)
+	verifUnwind(2*n + 8)
+	verifAllocMax(n + 4)
+	r := %(av)sNewReadBuf(buf)
+	err = c.Read(r, unsafe.Pointer(&empty))
+	verifObserveBool("skip-err", err != nil)
+	verifReach("end")
+}
+""" % dict(av=av))
+    for kid, gotxt in C05_KINDS:
+        if kid not in C06_MATRIX_KINDS:
+            continue
+        for pid, pfmt, wrap in C05_POS:
+            tname = "verifC05_%s_%s" % (pid, kid)
+            if wrap == "array":
+                wrapped = "%sSchema{Type: \"array\", Object: &%sSchemaObject{Items: fs}}" % (av, av)
+            elif wrap == "map":
+                wrapped = "%sSchema{Type: \"map\", Object: &%sSchemaObject{Values: fs}}" % (av, av)
+            else:
+                wrapped = "fs"
+            g.w("""func verifHarness_C06_matrix_%(pid)s_%(kid)s() {
+	all := verifC05Schemas()
+	fs := all[verifChoice("schema", len(all))]
+	s := %(av)sSchema{Type: "record", Object: &%(av)sSchemaObject{Name: "r", Fields: []%(av)sSchemaRecordField{{Name: "F", Type: %(wrapped)s}}}}
+	var out %(t)s
+	c, err := s.Codec(&out)
+	if err != nil {
+		verifReach("end")
+		return
+	}
+	n := verifChoice("len", verifC06MaxLen()+1)
+	buf := verifBytes("buf", n)
+	verifUnwind(2*n + 8)
+	verifAllocMax(n + 4)
+	r := %(av)sNewReadBuf(buf)
+	err = c.Read(r, unsafe.Pointer(&out))
+	verifObserveBool("read-err", err != nil)
+	verifReach("end")
+}
+""" % dict(pid=pid, kid=kid, av=av, t=tname, wrapped=wrapped))
 
 
 # ------------------------------------------------------------------ C13 caller schemas
@@ -955,11 +1143,14 @@ def emit_c13(g, cases):
         if fsd.kind == "int" or (fsd.kind == "union" and any(b.kind == "int" for b in fsd.branches)):
             if fty.kind in ("int", "int64"):
                 assume = "verifAssume(in.F >= -2147483648 && in.F <= 2147483647)"
+        if fsd.has_kind("float") and fty.kind == "nullfloat":
+            # values within the schema type's range: doubles that are exactly representable as float
+            assume = "verifAssume(verifOr(in.F.Float64 != in.F.Float64, float64(float32(in.F.Float64)) == in.F.Float64))"
         g.w("""func verifHarness_C13_%(cid)s() {
 	s := %(lit)s
 	c, err := s.Codec(%(n)s{})
 	if err != nil {
-		verifReach("rejected")
+		verifReach("end")
 		return
 	}
 	var in %(n)s
@@ -986,7 +1177,7 @@ def emit_c13(g, cases):
 		verifAssert(%(rt)s(&in, &out), "C13:decoding-returns-the-original")
 		verifAssert(verifGuards_%(n)s(&out), "C05:guards-intact")
 	}
-	verifReach("built")
+	verifReach("end")
 }
 """ % dict(cid=cid, lit=sd.lit(av), n=t.name, fill=fill, assume=assume, av=av, datum=datum, rt=rt))
 
@@ -1041,11 +1232,14 @@ def main():
     # wide (full 64-bit) values into narrower targets: the fit clause
     for tn in ("verifL_Int16", "verifL_Int32"):
         ga.harness_read(cata["verifL_Int64"], cata[tn], "fit", wide=True)
+    for t in catalogue_c20(ga):
+        ga.harness_c20(t)
     emit_c05(ga)
     emit_c06(ga, [cata[n] for n in ("verifL_Int64", "verifL_Int16", "verifL_String", "verifL_Bytes", "verifL_Bool", "verifL_Float32", "verifL_Float64",
                                     "verifO_Int64", "verifO_String", "verifP_Int64", "verifP_String", "verifS_Int64", "verifS_String", "verifM_Int64", "verifM_String",
                                     "verifN_Struct", "verifN_SliceStruct", "verifN_MapStruct", "verifD_SlicePtr", "verifD_MapPtr", "verifD_SliceSlice", "verifD_MapSlice",
                                     "verifD_SliceBytes", "verifD_PtrSlice", "verifD_PtrMap", "verifD_PtrPtr", "verifTags1")])
+    emit_c06_matrix(ga)
     emit_c13(ga, c13_cases_avro())
     src = ga.header(['"unsafe"']) + COMMON_HELPERS + "\n".join(ga.out)
     open(os.path.join(OUT, "avro", "zz_verif_gen_cat.go"), "w").write(src)
